@@ -11,6 +11,9 @@ def impl(case):
         from harness import cls
         out, _, _ = cls.classify(case["gens"])
         return out
+    if case["op"] == "history":
+        from harness import cls
+        return {"stages": cls.classify_history(case["gens"], case["steps"], case.get("orders"))}
     if case["op"] == "legs":
         # synthetic Morph objects: the census only looks at leg lengths
         from paulie import Morph, Classification, PauliString
@@ -79,6 +82,26 @@ def signature(morphs):
                 return None
             found = True
     return "single-leg-in-span-of-single-legs" if found else None
+
+
+def history_cases(ck, count, nmax=5):
+    """one collection object queried, edited in place through the public interface and queried again (queries in a
+    random order): -> (cases, results) of every stage, in the shape judge_collections / the C09 judge expect"""
+    from harness import cls
+    hist = []
+    for kind, n, g in G.collections(ck.rng, count, 2, nmax):
+        steps, _ = cls.gen_steps(ck.rng, n, g, 1, 3)
+        hist.append({"op": "history", "gens": g, "steps": steps, "n": n, "orders": cls.gen_orders(ck.rng, len(steps) + 1)})
+    hres = ck.impl("c01", hist, per_case_s=300)
+    cases, res = [], []
+    for c, r in zip(hist, hres):
+        if "exc" in r:
+            continue   # an edit the library rejects is C10's business
+        for si, stage in enumerate(r["stages"]):
+            if stage["gens"]:
+                cases.append(("history:" + json.dumps({"gens": c["gens"], "steps": c["steps"][:si], "orders": c["orders"][:si + 1]}), c["n"], stage["gens"]))
+                res.append(stage)
+    return cases, res
 
 
 def check_star_tie(ck, dist, with_dim=False):
@@ -168,7 +191,11 @@ def main():
     ck = Check("C01")
     if ck.replay:
         rp = json.load(open(ck.replay)); ck.build()
-        r = ck.impl("c01", [{"op": "classify", "gens": rp["gens"]}])[0]
+        if str(rp.get("kind", "")).startswith("history:"):
+            h = json.loads(rp["kind"][len("history:"):]); print("history:", h)
+            r = ck.impl("c01", [dict(h, op="history")])[0]["stages"][-1]
+        else:
+            r = ck.impl("c01", [{"op": "classify", "gens": rp["gens"]}])[0]
         a = ck.oracle(["lieinv %d %s" % (rp["n"], " ".join(rp["gens"]))])[0]
         print("implementation:", r.get("algebra"), "| closure invariants:", a, "|", lie.compare_name_with_inv(r["algebra"], a))
         return
@@ -185,6 +212,9 @@ def main():
     # the constructed family of the known finding is always present
     cases.append(("star", 5, ["XIIII", "ZIIII", "ZZIII", "ZIZII", "ZIIZI", "ZIIIZ", "ZZZZZ"]))
     res = ck.impl("c01", [{"op": "classify", "gens": g} for _, _, g in cases], per_case_s=120)
+    hc, hr = history_cases(ck, 200 if ck.quick else 2000)
+    cases += hc; res += hr
+    dist["history_stages"] = len(hc)
     nt, kinds = judge_collections(ck, cases, res)
     dist["collections_by_kind"] = kinds
     dist["by_n"] = {}
